@@ -44,6 +44,12 @@ def _fits_val(spec, v):
             if not _fits_val(vs[1] if opt else vs, v[k]):
                 return False
         return set(v) <= set(spec[1])
+    if isinstance(spec, tuple) and spec and spec[0] == "list":
+        return isinstance(v, list) and len(v) == len(spec[1]) and all(_fits_val(s, x) for s, x in zip(spec[1], v))
+    if isinstance(spec, tuple) and spec and spec[0] == "node":
+        if type(v).__name__ != str(spec[1]).split(".")[-1]:
+            return False
+        return all(hasattr(v, k) and _fits_val(vs, getattr(v, k)) for k, vs in spec[2].items())
     if isinstance(spec, str) and (spec.startswith("pred") or spec == "obj"):
         return True
     return v == spec and type(v) is type(spec)
@@ -51,6 +57,27 @@ def _fits_val(spec, v):
 
 def _fits(params, kwargs):
     return set(params) >= set(kwargs) and all(_fits_val(params[k], v) for k, v in kwargs.items())
+
+
+def auto_corpus(contract):
+    """one or two concrete inputs per contract case, built from the case's own parameter spec (scalars take two default vectors): the
+    minimum engine / CPython cross-check every contract gets even without a hand-written corpus"""
+    out = []
+    for case in contract.cases:
+        for defaults in ({"str": "", "int": 0, "bool": False}, {"str": "ab", "int": 2, "bool": True}, {"str": "Xy", "int": -1, "bool": True}):
+            saved = dict(driver._DEFAULT_OF)
+            driver._DEFAULT_OF.update(defaults)
+            try:
+                kw = {}
+                for pname, spec in case.params.items():
+                    kw[pname] = driver.concretize(spec, pname, {}, top=False)
+                out.append(kw)
+            except driver._NoConcrete:
+                break
+            finally:
+                driver._DEFAULT_OF.clear()
+                driver._DEFAULT_OF.update(saved)
+    return out
 
 
 def _check_one(args):
